@@ -273,8 +273,9 @@ def vocab(gm, area):
             "AnsiColor": {"coq": "tcolor", "eqb": "color_eqb", "variants": {n: "(TAnsi %d)" % i for n, i in ansi.items()}},
         },
         "structs": {
-            "Str": dict(nocheck, coq="(list N)", eqb="list_eqb", index_range=("str_slice_cp", STRB)),
-            "StrB": dict(nocheck, coq="(list N)", eqb="list_eqb"),
+            "Str": dict(nocheck, coq="(list N)", eqb="list_eqb", index_range=("str_slice_cp", STRB), index_len="str_len"),
+            # a piece of a str (slice, split_at): its UTF-8 bytes; slicing it again checks the char boundaries too
+            "StrB": dict(nocheck, coq="(list N)", eqb="list_eqb", index_range=("str_slice", STRB)),
             "Effects": dict(nocheck, coq="N", bitor="fx_bitor"),
             "Style": dict(nocheck, coq="tstyle", bitor="style_or_effects"),
             "Ansi256Color": dict(nocheck, coq="tcolor"),
